@@ -1,0 +1,69 @@
+//go:build verif
+
+// Contracts for package search: merging of facet results (read by /verif/gocv; comment-only effect
+// with the verif tag off).
+
+package search
+
+// ---------------------------------------------------------------------------
+// C09 / C10: facet results of the shards are merged bucket-wise
+// ---------------------------------------------------------------------------
+
+// Two optional bounds are the same bound: both absent, or both present with equal values.
+//@ spec optF64Eq(a *float64, b *float64) bool = (a == nil && b == nil) || (a != nil && b != nil && *a == *b)
+//@ spec optStrEq(a *string, b *string) bool = (a == nil && b == nil) || (a != nil && b != nil && *a == *b)
+//@ spec sameNR(a *NumericRangeFacet, b *NumericRangeFacet) bool = optF64Eq(a.Min, b.Min) && optF64Eq(a.Max, b.Max)
+//@ spec sameDR(a *DateRangeFacet, b *DateRangeFacet) bool = optStrEq(a.Start, b.Start) && optStrEq(a.End, b.End)
+
+//@ func NumericRangeFacet.Same
+//@   props C09 C10
+//@   mode int
+//@   requires nrf != nil && other != nil
+//@   ensures result == sameNR(nrf, other)
+
+//@ func DateRangeFacet.Same
+//@   props C09 C10
+//@   mode int
+//@   requires drf != nil && other != nil
+//@   ensures result == sameDR(drf, other)
+
+// Add: the count goes to the first bucket with the same bounds; a new bucket is appended when
+// there is none. No other bucket changes.
+//@ func NumericRangeFacets.Add
+//@   props C09 C10
+//@   mode int
+//@   requires numericRangeFacet != nil && forall(k, 0, len(nrf), nrf[k] != nil && nrf[k] != numericRangeFacet && nrf[k].Count >= 0 && nrf[k].Count <= 4611686018427387904) && numericRangeFacet.Count >= 0 && numericRangeFacet.Count <= 4611686018427387904
+//@   requires forall(p, 0, len(nrf), forall(q, p+1, len(nrf), nrf[p] != nrf[q]))
+//@   modifies NumericRangeFacet.Count, nrf[*]
+//@   ensures implies(forall(k, 0, len(nrf), !sameNR(numericRangeFacet, nrf[k])), len(result) == len(nrf) + 1 && result[len(nrf)] == numericRangeFacet && forall(k, 0, len(nrf), result[k] == nrf[k]) && all(x, *NumericRangeFacet, x.Count == old(x.Count)))
+//@   ensures forall(k, 0, len(nrf), implies(sameNR(numericRangeFacet, nrf[k]) && forall(j, 0, k, !sameNR(numericRangeFacet, nrf[j])), result == nrf && nrf[k].Count == old(nrf[k].Count) + numericRangeFacet.Count && all(x, *NumericRangeFacet, implies(x != nrf[k], x.Count == old(x.Count)))))
+//@   loop 0: invariant forall(j, 0, iter, !sameNR(numericRangeFacet, nrf[j])) && all(x, *NumericRangeFacet, x.Count == old(x.Count))
+
+//@ func DateRangeFacets.Add
+//@   props C09 C10
+//@   mode int
+//@   requires dateRangeFacet != nil && forall(k, 0, len(drf), drf[k] != nil && drf[k] != dateRangeFacet && drf[k].Count >= 0 && drf[k].Count <= 4611686018427387904) && dateRangeFacet.Count >= 0 && dateRangeFacet.Count <= 4611686018427387904
+//@   requires forall(p, 0, len(drf), forall(q, p+1, len(drf), drf[p] != drf[q]))
+//@   modifies DateRangeFacet.Count, drf[*]
+//@   ensures implies(forall(k, 0, len(drf), !sameDR(dateRangeFacet, drf[k])), len(result) == len(drf) + 1 && result[len(drf)] == dateRangeFacet && forall(k, 0, len(drf), result[k] == drf[k]) && all(x, *DateRangeFacet, x.Count == old(x.Count)))
+//@   ensures forall(k, 0, len(drf), implies(sameDR(dateRangeFacet, drf[k]) && forall(j, 0, k, !sameDR(dateRangeFacet, drf[j])), result == drf && drf[k].Count == old(drf[k].Count) + dateRangeFacet.Count && all(x, *DateRangeFacet, implies(x != drf[k], x.Count == old(x.Count)))))
+//@   loop 0: invariant forall(j, 0, iter, !sameDR(dateRangeFacet, drf[j])) && all(x, *DateRangeFacet, x.Count == old(x.Count))
+
+// The order of buckets in a facet result: count descending, then name/term ascending.
+//@ func NumericRangeFacets.Less
+//@   props C09 C10
+//@   mode int
+//@   requires 0 <= i && i < len(nrf) && 0 <= j && j < len(nrf) && nrf[i] != nil && nrf[j] != nil
+//@   ensures result == (nrf[i].Count > nrf[j].Count || (nrf[i].Count == nrf[j].Count && nrf[i].Name < nrf[j].Name))
+
+//@ func DateRangeFacets.Less
+//@   props C09 C10
+//@   mode int
+//@   requires 0 <= i && i < len(drf) && 0 <= j && j < len(drf) && drf[i] != nil && drf[j] != nil
+//@   ensures result == (drf[i].Count > drf[j].Count || (drf[i].Count == drf[j].Count && drf[i].Name < drf[j].Name))
+
+//@ func TermFacets.Less
+//@   props C09 C10
+//@   mode int
+//@   requires tf != nil && 0 <= i && i < len(tf.termFacets) && 0 <= j && j < len(tf.termFacets) && tf.termFacets[i] != nil && tf.termFacets[j] != nil
+//@   ensures result == (tf.termFacets[i].Count > tf.termFacets[j].Count || (tf.termFacets[i].Count == tf.termFacets[j].Count && tf.termFacets[i].Term < tf.termFacets[j].Term))
